@@ -1375,6 +1375,8 @@ def run_history(case, o: Oracle) -> None:
         o.label("has_fields")
     if any(f["enums"] for r in layout["regs"] for f in r["fields"]):
         o.label("has_enums")
+    if any(len({e[0] for e in f["enums"]}) != len(f["enums"]) for r in layout["regs"] for f in r["fields"]):
+        o.label("dup_enum_names")  # the same enum name stands for several values (as in many fuse files)
     if any(r["reset"] or any(f["reset"] for f in r["fields"]) for r in layout["regs"]):
         o.label("nonzero_reset")
     if any(r["hidden"] for r in layout["regs"]):
